@@ -444,6 +444,30 @@ Section LoopAgree.
   Proof. intros A [|x a]; reflexivity. Qed.
   Lemma len_zero : forall A (a : list A), (List.length a =? 0)%nat = is_nil a.
   Proof. intros A [|x a]; reflexivity. Qed.
+  (* the other spellings of the same emptiness tests: `len(a)+len(b) != 0`, `0 == len(a)`, `len(a) >= 1`, `len(a) < 1`, `len(a) <= 0` … *)
+  Lemma len2_zero : forall A B (a : list A) (b : list B),
+    (List.length a + List.length b =? 0)%nat = is_nil a && is_nil b.
+  Proof. intros A B [|x a] [|y b]; reflexivity. Qed.
+  Lemma zero_len : forall A (a : list A), (0 =? List.length a)%nat = is_nil a.
+  Proof. intros A [|x a]; reflexivity. Qed.
+  Lemma zero_len2 : forall A B (a : list A) (b : list B),
+    (0 =? List.length a + List.length b)%nat = is_nil a && is_nil b.
+  Proof. intros A B [|x a] [|y b]; reflexivity. Qed.
+  Lemma one_le_len : forall A (a : list A), (1 <=? List.length a)%nat = negb (is_nil a).
+  Proof. intros A [|x a]; reflexivity. Qed.
+  Lemma one_le_len2 : forall A B (a : list A) (b : list B),
+    (1 <=? List.length a + List.length b)%nat = negb (is_nil a && is_nil b).
+  Proof. intros A B [|x a] [|y b]; reflexivity. Qed.
+  Lemma len_lt_one : forall A (a : list A), (List.length a <? 1)%nat = is_nil a.
+  Proof. intros A [|x a]; reflexivity. Qed.
+  Lemma len2_lt_one : forall A B (a : list A) (b : list B),
+    (List.length a + List.length b <? 1)%nat = is_nil a && is_nil b.
+  Proof. intros A B [|x a] [|y b]; reflexivity. Qed.
+  Lemma len_le_zero : forall A (a : list A), (List.length a <=? 0)%nat = is_nil a.
+  Proof. intros A [|x a]; reflexivity. Qed.
+  Lemma len2_le_zero : forall A B (a : list A) (b : list B),
+    (List.length a + List.length b <=? 0)%nat = is_nil a && is_nil b.
+  Proof. intros A B [|x a] [|y b]; reflexivity. Qed.
   Lemma subpairs_nil : forall rs : list (N * tex), is_nil (subpairs rs) = is_nil (subcps rs).
   Proof. induction rs as [|[k x] rs IH]; simpl; auto. destruct x; simpl; auto. Qed.
   Lemma subpairs_app : forall a b : list (N * tex), subpairs (a ++ b) = subpairs a ++ subpairs b.
@@ -542,7 +566,8 @@ Section LoopAgree.
      Gen/IntrLoop.v is the neutral file ([tie_available = false]) and the statements hold vacuously.
      Conditions are compared up to propositional equivalence over the emptiness tests of the lists
      ([align_cond]): `len(a)+len(b) > 0`, `len(a) > 0 || len(b) != 0`, swapped operands … are the same test. *)
-  Ltac norm_conds := rewrite ?pos_len2, ?pos_len, ?len_zero, ?subpairs_nil.
+  Ltac norm_conds := rewrite ?pos_len2, ?pos_len, ?len2_zero, ?len_zero, ?zero_len2, ?zero_len, ?one_le_len2, ?one_le_len,
+                             ?len2_lt_one, ?len_lt_one, ?len2_le_zero, ?len_le_zero, ?subpairs_nil.
   Ltac bool_tauto := repeat match goal with |- context [is_nil ?l] => destruct (is_nil l) end; reflexivity.
   Ltac align_cond :=
     match goal with
@@ -759,10 +784,10 @@ Section HandleAgree.
                   CNext (rerunTasks, rerun)) rr (rerunTasks, rerun) with
             | inr r => CRet r
             | inl (rerunTasks, rerun) =>
-                if (negb rerun) then
-                  let otherTasks := (otherTasks ++ [t]) in
+                if rerun then
                   CNext (rerunTasks, subgraphTasks, otherTasks, skipPreHandler)
                 else
+                  let otherTasks := (otherTasks ++ [t]) in
                   CNext (rerunTasks, subgraphTasks, otherTasks, skipPreHandler)
             end
         end) tasks (rr0, sb0, ot0, sk0)
